@@ -689,38 +689,59 @@ func c19RunHistory(r *RunCtx, h c19History, record bool) (*c19Result, error) {
 	}
 	// second import, under the clock a restarted chain really has: InitChain runs InitGenesis at the genesis time of
 	// the genesis file, which an export leaves where it was -- in the past of every record the chain wrote since
-	early, err := c19NewEnv()
-	if err != nil {
-		return nil, err
-	}
-	defer early.Close()
-	early.At(src.Height+1, T0.Add(-time.Hour))
-	for mi := range mods {
-		m := &mods[mi]
-		before, _ := c19Dump(src, m.StoreKey, nil)
-		for _, kv := range mustDump(early, m.StoreKey) {
-			early.Ctx.KVStore(c19StoreKey(early, m.StoreKey)).Delete(kv.K)
+	for _, cond := range []struct {
+		name  string
+		later int64
+		clock time.Time
+	}{{"an hour before the chain's first block", 0, T0.Add(-time.Hour)}, {"six million blocks later, after every registration of the history has lapsed", 6_000_000, T0.Add(-time.Hour)}} {
+		early, err := c19NewEnv()
+		if err != nil {
+			return nil, err
 		}
-		var verr error
-		if p := Guard(func() { verr = m.Import(early, m.Export(src)) }); p != "" || verr != nil {
-			continue // already reported by the first import
+		if cond.later > 0 {
+			src.At(src.Height+cond.later, src.Time.Add(time.Duration(cond.later)*6*time.Second))
 		}
-		amap := map[string][]byte{}
-		for _, kv := range mustDump(early, m.StoreKey) {
-			amap[string(kv.K)] = kv.V
-		}
-		for _, kv := range before {
-			v, ok := amap[string(kv.K)]
-			if !ok || bytes.Equal(v, kv.V) {
-				continue
+		early.At(src.Height+1, cond.clock)
+		for mi := range mods {
+			m := &mods[mi]
+			before, _ := c19Dump(src, m.StoreKey, nil)
+			for _, kv := range mustDump(early, m.StoreKey) {
+				early.Ctx.KVStore(c19StoreKey(early, m.StoreKey)).Delete(kv.K)
 			}
-			prefix, kind := m.classify(kv.K)
-			sig := "C19/genesis-changes/" + m.Name + "." + kind
-			if res.has(sig) == nil {
-				res.Findings = append(res.Findings, Finding{sig, fmt.Sprintf("a %s record under %q comes back with a different value when the genesis is imported at a genesis time before the record was written", kind, prefix),
-					map[string]interface{}{"history": h, "module": m.Name, "key": string(kv.K), "before": fmt.Sprintf("%x", kv.V), "after": fmt.Sprintf("%x", v), "imported_at": "an hour before the chain's first block"}})
+			var verr error
+			if p := Guard(func() { verr = m.Import(early, m.Export(src)) }); p != "" || verr != nil {
+				continue // already reported by the first import
+			}
+			amap := map[string][]byte{}
+			for _, kv := range mustDump(early, m.StoreKey) {
+				amap[string(kv.K)] = kv.V
+			}
+			for _, kv := range before {
+				v, ok := amap[string(kv.K)]
+				if !ok || bytes.Equal(v, kv.V) {
+					continue
+				}
+				prefix, kind := m.classify(kv.K)
+				sig := "C19/genesis-changes/" + m.Name + "." + kind
+				if res.has(sig) == nil {
+					res.Findings = append(res.Findings, Finding{sig, fmt.Sprintf("a %s record under %q comes back with a different value when the genesis is imported at a genesis time before the record was written", kind, prefix),
+						map[string]interface{}{"history": h, "module": m.Name, "key": string(kv.K), "before": fmt.Sprintf("%x", kv.V), "after": fmt.Sprintf("%x", v), "imported_at": cond.name}})
+				}
+			}
+			// what the first import (same height, same clock as the export) brought back and this one does not
+			for _, kv := range mustDump(dst, m.StoreKey) {
+				if _, ok := amap[string(kv.K)]; ok {
+					continue
+				}
+				prefix, kind := m.classify(kv.K)
+				sig := "C19/genesis-drops/" + m.Name + "." + kind
+				if res.has(sig) == nil {
+					res.Findings = append(res.Findings, Finding{sig, fmt.Sprintf("a %s record under %q is imported when the genesis is read back at once, and dropped when the new chain starts at a later initial height under its genesis time", kind, prefix),
+						map[string]interface{}{"history": h, "module": m.Name, "key": string(kv.K), "imported_at": cond.name, "initial_height": src.Height + 1}})
+				}
 			}
 		}
+		early.Close()
 	}
 	return res, nil
 }
